@@ -206,7 +206,11 @@ async fn handle(
         } => handle_stream_append(&mut store, req, topic, ttl, context_id).await,
 
         Routes::CasGet(hash) => {
-            let reader = store.cas_reader(hash).await?;
+            let reader = match store.cas_reader(hash).await {
+                Ok(reader) => reader,
+                Err(e) if is_cas_not_found(&e) => return response_404(),
+                Err(e) => return response_500(e.to_string()),
+            };
             let stream = ReaderStream::new(reader);
 
             let stream = stream.map(|frame| {
@@ -539,6 +543,14 @@ async fn handle_import(store: &mut Store, body: hyper::body::Incoming) -> HTTPRe
         .status(StatusCode::OK)
         .header("Content-Type", "application/json")
         .body(full(serde_json::to_string(&frame).unwrap()))?)
+}
+
+fn is_cas_not_found(err: &cacache::Error) -> bool {
+    match err {
+        cacache::Error::EntryNotFound(..) => true,
+        cacache::Error::IoError(e, _) => e.kind() == std::io::ErrorKind::NotFound,
+        _ => false,
+    }
 }
 
 fn response_404() -> HTTPResult {
